@@ -728,4 +728,26 @@ theorem content_addressed_get_fault_sound (H : Hash) (f : Cache.Fault) (l : Cach
     (h : (Cache.caGetReads H (f.reads (Cache.lookup c l)) c).1 = .hit v) : H v = c :=
   content_addressed_get_any_store_sound H _ c v h
 
+/-- `validated_get_fault_sound`: `get_with_validation` with hooks hands out `v` for content key `c`
+only if `H v = c` (up to the size exemption) also when the disk layer's backing file is rewritten
+DURING the call — before its read or after any of its reads: what is returned is the buffer that
+was hashed. -/
+theorem validated_get_fault_sound (H : Hash) (cfg : Cache.Cfg) (s : List Cache.Layer) (k c v alt : Bytes) (m : Nat)
+    (hh : cfg.hooks = true) (h : (Cache.getValidatedFault H cfg s k (some c) m alt).2.1 = .hit v)
+    (hsz : v.length ≤ cfg.skipAbove) : H v = c := by
+  unfold Cache.getValidatedFault at h
+  simp only [] at h
+  split at h
+  · exact validated_get_sound H cfg _ _ k c v hh (Prod.ext rfl h) hsz
+  · exact validated_get_sound H cfg _ _ k c v hh (Prod.ext rfl h) hsz
+
+/-- a call that finds the key in memory, or nowhere, never reads the disk file; otherwise it reads
+it exactly once (the count the run compares with the `disk.get.before_read` schedule points the
+real call passes). -/
+theorem validated_get_fault_reads_le_one (H : Hash) (cfg : Cache.Cfg) (s : List Cache.Layer) (k : Bytes)
+    (e : Option Bytes) (m : Nat) (alt : Bytes) : (Cache.getValidatedFault H cfg s k e m alt).2.2 ≤ 1 := by
+  unfold Cache.getValidatedFault
+  simp only []
+  split <;> (split <;> (try split) <;> simp)
+
 end Cascette.Props.C07
